@@ -228,9 +228,22 @@ func scalarVariations(rng *rand.Rand, n *gen.Node) []string {
 	}
 	// keep the JSON kind: where no type rule is written the schema type is inferred from the example,
 	// so a literal of another kind would be another schema, not another example
+	// ... except where the rules name the admissible kinds themselves: under an `or` rule the example's kind decides
+	// nothing, and `nullable: true` admits null next to any kind
+	_, hasOr := n.Rule("or")
+	if hasOr {
+		out = append(out, "null", "5", "-1.5", `"abc"`, "true", `"2006-01-02"`, `"2021-01-02T07:23:12+03:00"`, `"a@b.cc"`, `"550e8400-e29b-41d4-a716-446655440000"`, `""`)
+	}
+	nullable := false
+	if rv, ok := n.Rule("nullable"); ok && rv.Lit == "true" {
+		nullable = true
+	}
 	var keep []string
 	for _, v := range out {
-		if v != n.Lit && gen.KindOfLiteral(v) == n.Kind {
+		if v == n.Lit {
+			continue
+		}
+		if gen.KindOfLiteral(v) == n.Kind || hasOr || (v == "null" && nullable) {
 			keep = append(keep, v)
 		}
 	}
